@@ -5,7 +5,7 @@ pub open spec fn smax(a: int, b: int) -> int { if a >= b { a } else { b } }
 pub open spec fn smin(a: int, b: int) -> int { if a <= b { a } else { b } }
 pub open spec fn ssub(a: int, b: int) -> int { if a >= b { a - b } else { 0 } }
 
-pub open spec fn BIG() -> int { 0x4000_0000_0000_0000 }
+pub open spec fn BIG() -> int { 0x1000_0000_0000_0000 }
 
 /// Well-formed hunk: the declared context really is context on both sides.
 pub open spec fn hunk_wf<L>(h: Hunk<L>) -> bool {
